@@ -166,7 +166,34 @@ pub fn deep_child(shape: &str, d: usize, o: u32, entry: &str) {
             match r {
                 Ok((v, cm)) => {
                     let n = v.traverse().count();
-                    let s = format!("OK {}/{}", n, cm.len());
+                    // the same walk through the other standard ways of consuming an iterator
+                    // (they consult size_hint, fold, or skip): all must see the same fragments
+                    let hint = v.traverse().size_hint();
+                    let collected = v.traverse().collect::<Vec<_>>().len();
+                    let mut ext = Vec::new();
+                    ext.extend(v.traverse());
+                    let folded = v.traverse().fold(0usize, |a, _| a + 1);
+                    let skipped = {
+                        let mut it = v.traverse();
+                        if n > 2 { it.nth(n - 2).is_some() as usize + it.count() } else { 2 }
+                    };
+                    let last = v.traverse().last().is_some();
+                    let mut looped = 0usize;
+                    for _ in v.traverse() {
+                        looped += 1;
+                    }
+                    let agree = collected == n
+                        && ext.len() == n
+                        && folded == n
+                        && looped == n
+                        && skipped == 2
+                        && last == (n > 0)
+                        && hint.0 <= n
+                        && hint.1.map_or(true, |h| h >= n)
+                        && v.volume() <= n
+                        && v.count(|_, _| true) == n;
+                    drop(ext);
+                    let s = if agree { format!("OK {}/{}", n, cm.len()) } else { format!("TRAVERSE-DISAGREES {}/{}", n, cm.len()) };
                     drop_deep(v);
                     s
                 }
